@@ -628,10 +628,11 @@ def _nexus_multi(order, translate, trees, taxa_block=True):
 
 
 def _nexml_multi(order, otus_id, trees):
-    labs = [(l, l) for l in order]
+    """order: otu labels; '' gives label="" (present but empty), None an otu without label attribute"""
+    labs = [(l if l else "leaf%d" % j, l) for j, l in enumerate(order)]
     L = [NEXML_HEAD.rstrip("\n"), '<otus id="%s" label="taxa">' % otus_id]
     for j, l in enumerate(order):
-        L.append(' <otu id="%s_t%d" label="%s"/>' % (otus_id, j, l))
+        L.append(' <otu id="%s_t%d"%s/>' % (otus_id, j, "" if l is None else ' label="%s"' % l))
     L.append("</otus>")
     L.append('<trees id="trs0" label="block0" otus="%s">' % otus_id)
     ids = ["%s_t%d" % (otus_id, j) for j in range(len(order))]
@@ -648,6 +649,30 @@ S3 = (0, (1, 2))
 S5 = ((0, 4), (1, (2, 3)))
 
 
+# otu label lists for the empty / missing label vocabulary ('' = label="", None = no label attribute)
+NEXML_EMPTY_LABEL_SETS = [
+    ("empty-alone", [""], 0),
+    ("empty-with-ordinary", ["a", "", "c", "d"], S4),
+    ("empty-first", ["", "b", "c"], S3),
+    ("missing-alone", [None], 0),
+    ("missing-with-ordinary", ["a", None, "c", "d"], S4),
+    ("empty-and-missing", ["", None, "c", "d"], S4),
+]
+
+
+def nexml_empty_label_doc(order, shape, two_trees):
+    trees = [shape] + ([shape] if two_trees else [])
+    return _nexml_multi(order, "o1", trees), [len(trees)]
+
+
+def quoted_empty_label_doc(schema, two_trees):
+    """Newick / NEXUS can write an empty label as a pair of quotes"""
+    if schema == "newick":
+        t = "((a,''),(c,d));\n" + ("(d,('',a));\n" if two_trees else "")
+        return t, [2 if two_trees else 1]
+    return _nexus_multi(["a", "''", "c", "d"], None, [S4] + ([S4b] if two_trees else [])), [2 if two_trees else 1]
+
+
 def multi_menu(schema):
     """[(name, text, number of trees)]"""
     if schema == "newick":
@@ -655,19 +680,23 @@ def multi_menu(schema):
                 ("reordered-2-trees", "((d,c),(b,a));\n(a,(b,(c,d)));\n", 2),
                 ("subset", "(a,(b,c));\n", 1),
                 ("superset", "((a,e),(b,(c,d)));\n", 1),
-                ("reordered-3-trees", "(b,a,d,c);\n(c,d,a,b);\n(d,(c,(b,a)));\n", 3)]
+                ("reordered-3-trees", "(b,a,d,c);\n(c,d,a,b);\n(d,(c,(b,a)));\n", 3),
+                ("empty-label", "((a,''),(c,d));\n(d,('',a));\n", 2)]
     if schema == "nexus":
         return [("base", _nexus_multi(["a", "b", "c", "d"], "num", [S4]), 1),
                 ("rebound-tokens-2-trees", _nexus_multi(["d", "c", "b", "a"], "num", [S4, S4b]), 2),
                 ("subset-no-taxa-block", _nexus_multi(["a", "b", "c"], None, [S3], taxa_block=False), 1),
                 ("superset", _nexus_multi(["a", "b", "c", "d", "e"], "num", [S5]), 1),
-                ("reordered-alpha-tokens", _nexus_multi(["b", "a", "d", "c"], "alpha", [S4b]), 1)]
+                ("reordered-alpha-tokens", _nexus_multi(["b", "a", "d", "c"], "alpha", [S4b]), 1),
+                ("empty-label-no-taxa-block", _nexus_multi(["a", "''", "c", "d"], None, [S4, S4b], taxa_block=False), 2)]
     if schema == "nexml":
         return [("base", _nexml_multi(["a", "b", "c", "d"], "o1", [S4]), 1),
                 ("rebound-ids-2-trees", _nexml_multi(["d", "c", "b", "a"], "o1", [S4, S4b]), 2),
                 ("subset", _nexml_multi(["a", "b", "c"], "o1", [S3]), 1),
                 ("superset", _nexml_multi(["a", "b", "c", "d", "e"], "o1", [S5]), 1),
-                ("reordered-other-otus-id", _nexml_multi(["b", "a", "d", "c"], "o2", [S4b]), 1)]
+                ("reordered-other-otus-id", _nexml_multi(["b", "a", "d", "c"], "o2", [S4b]), 1),
+                ("empty-label", _nexml_multi(["a", "", "c", "d"], "o1", [S4, S4b]), 2),
+                ("empty-label-other-position", _nexml_multi(["", "d", "a"], "o1", [S3]), 1)]
     raise ValueError(schema)
 
 
